@@ -23,14 +23,18 @@ def run(tier, build, replay=None):
         if "ok" not in i:
             continue
         mono = dates_monotone(c)
-        tags = set() if mono else {"non-monotone-local-dates"}
         want = oracle.yearly(c, base["impl"][idx]["ok"]["fractions"], t, f)
         got = {}
         for y in i["ok"]["yearly"]:
             key = (y[0], y[1], y[2])
             if key in got:
-                out.violation(f"yearly line {key} appears twice", rep, tags=tags | {"yearly"})
+                out.violation(f"yearly line {key} appears twice", rep, tags={"yearly"})
             got[key] = [y[3], oracle.dec_of_pair(y[4]), oracle.dec_of_pair(y[5]), oracle.dec_of_pair(y[6])]
+        # finding F9 (known) is recognised narrowly: a to-date, local dates not monotone in time, and the reported list is EXACTLY
+        # what stopping at the first fraction dated after the to-date gives; any other deviation is reported as new
+        tags = set()
+        if not mono and t is not None and got != want and got == oracle.yearly(c, base["impl"][idx]["ok"]["fractions"], t, f, brk=True):
+            tags = {"non-monotone-local-dates"}
         for key, w in want.items():
             g = got.get(key)
             if g is None:
